@@ -95,7 +95,7 @@ func writeReplay(prop string, js *JobSpec, pr *sx.PathResult, idx int, known map
 	if js.Harness != "root" {
 		relPkg = "./" + js.Harness
 	}
-	cmdline := fmt.Sprintf("cd %s && VERIF_REPLAY=%s GOFLAGS=-mod=mod GOPROXY=off GOSUMDB=off GOTOOLCHAIN=local go test -vet=off -count=1 -timeout 120s -run '^TestVerifReplay$' -overlay %s %s",
+	cmdline := fmt.Sprintf("cd %s && VERIF_REPLAY=%s GOFLAGS=-mod=mod GOPROXY=off GOSUMDB=off GOTOOLCHAIN=local go test -v -vet=off -count=1 -timeout 120s -run '^TestVerifReplay$' -overlay %s %s",
 		repoDir, modelPath, ovPath, relPkg)
 	os.WriteFile(filepath.Join(dir, "README"), []byte("Re-run this counterexample against the real build:\n\n  "+cmdline+"\n\nexpected: "+pr.AssertID+" — "+pr.Msg+"\n"), 0644)
 	out := &replayOutcome{Dir: dir}
@@ -104,7 +104,7 @@ func writeReplay(prop string, js *JobSpec, pr *sx.PathResult, idx int, known map
 	}
 	ctx, cancel := context.WithTimeout(context.Background(), 300*time.Second)
 	defer cancel()
-	c := exec.CommandContext(ctx, "go", "test", "-vet=off", "-count=1", "-timeout", "120s", "-run", "^TestVerifReplay$", "-overlay", ovPath, relPkg)
+	c := exec.CommandContext(ctx, "go", "test", "-v", "-vet=off", "-count=1", "-timeout", "120s", "-run", "^TestVerifReplay$", "-overlay", ovPath, relPkg)
 	c.Dir = repoDir
 	c.Env = append(os.Environ(), "VERIF_REPLAY="+modelPath, "GOFLAGS=-mod=mod", "GOPROXY=off", "GOSUMDB=off", "GOTOOLCHAIN=local")
 	var buf bytes.Buffer
